@@ -79,8 +79,13 @@ def gen_shuffle(rng):
         flags += rng.choice(["p", "f"] + (["s%d" % rng.randrange(np_)] if np_ else []))
     for fd in sorted(user):
         toks.append("f%d=%d%s" % (fd, user[fd][0], "c" if user[fd][1] else "n"))
+    for sg in (10, 15, 12):
+        if rng.random() < 0.15:
+            toks.insert(1, "B%d" % sg)
     toks.append("r")
     toks.append("S0:%s:x%d:-:%s" % (",".join(slots) if slots else "-", rng.randrange(256), flags))
+    # a further child after it: must be reported whatever happened to the first spawn
+    toks.append("S1:%s:x%d:-:-" % (rng.choice(["-", "i,i,i", "h0,h1,h2"]), rng.randrange(256)))
     toks.append("D")
     return " ".join(toks)
 
@@ -88,7 +93,7 @@ def gen_shuffle(rng):
 def gen_exits(rng, maxn):
     """Several children, scripted exit codes / signals / times."""
     n = rng.choice([1, 2, 3, 4, 5, 6, 8, maxn])
-    toks = ["L39", "g0", "g1", "g2"]
+    toks = ["L39", "g0", "g1", "g2"] + ["B%d" % sg for sg in (10, 15) if rng.random() < 0.15]
     gates = {0: [], 1: [], 2: [], None: []}
     alive = set()
     for h in range(n):
@@ -100,14 +105,17 @@ def gen_exits(rng, maxn):
         fl = ""
         if rng.random() < 0.06:
             fl += "N"
-        if rng.random() < 0.08:
+        r = rng.random()
+        if r < 0.08:
             fl += "E"
+        elif r < 0.13:
+            fl += rng.choice(["f", "f", "p"])
         stdio = rng.choice(["-", "i,i,i", "h0,h1,h2", "i", "h0,h1,h2,i,h1"])
         toks.append("S%d:%s:%s:%s:%s" % (h, stdio, act, "-" if g is None else g, fl or "-"))
-        if "E" not in fl:
+        if not (set(fl) & set("Efp")):
             gates[g].append(h)
             alive.add(h)
-        if g is None and "E" not in fl and rng.random() < 0.6:
+        if g is None and not (set(fl) & set("Efp")) and rng.random() < 0.6:
             toks.append("A%d" % h)             # certainly gone before the loop runs
         if rng.random() < 0.15:
             toks.append(rng.choice(["R", "W"]))
@@ -177,6 +185,9 @@ CORPUS = [
     "L39 S0:-:x255:-:- A0 I3 R D",
     # failed exec: no callback, no zombie
     "L39 S0:i,i,i:x0:-:E R D W",
+    # fork fails (EAGAIN): the caller's signal mask must be back and the next child reported
+    "L39 S0:i,i,i:x0:-:f S1:-:x9:-:- D W",
+    "L39 B10 B15 S0:h0,h1,h2:x0:-:f S1:-:s15:-:- S2:-:x3:-:p S3:-:x4:-:- D W",
 ]
 
 
@@ -215,8 +226,10 @@ class Impl:
         self.z = None
         self.sizes = {}
         self.script = {}
+        self.stuck = []
         self._nextid = 500
         self._ids = {}
+        self._since = {}
         for t in case.split():
             if t[0] == "S":
                 h, stdio, act, gate, fl = spawn_fields(t)
@@ -228,7 +241,9 @@ class Impl:
         try:
             for t in self.toks:
                 c = t[0]
-                if c == "F":
+                if t.startswith("stuck:"):
+                    self.stuck += [int(x) for x in t[6:].split(",")]
+                elif c == "F":
                     n, ident = t[1:].split("=")
                     self.files[ident] = int(n)
                 elif c == "P":
@@ -255,6 +270,9 @@ class Impl:
                             fd, tags = v.split("/")
                             st[int(slot)] = (fd, sorted(int(x) for x in tags.split(".") if x != ""))
                     self.spawns[int(h)]["t"] = st
+                elif c == "M":
+                    h, mb, ma = t[1:].split(":")
+                    self.spawns[int(h)]["mask"] = (int(mb, 16), int(ma, 16))
                 elif c == "N":
                     cur = []
                     self.order.append(("W", cur))
@@ -296,14 +314,19 @@ class Impl:
         if self.z is None:
             self.bad = "case did not reach its end"
 
-    def fid(self, ident):
-        """identity -> file id: private files by their number, /dev/null 0, others 500+"""
+    def fid(self, ident, order=0):
+        """identity -> file id: private files by their number, /dev/null 0, others 500+
+        (remembering at which spawn of the case the identity was first seen in the parent)"""
         if ident in self.files:
             return self.files[ident]
         if ident not in self._ids:
             self._ids[ident] = self._nextid
+            self._since[ident] = order
             self._nextid += 1
         return self._ids[ident]
+
+    def known_at(self, ident, order):
+        return ident in self.files or (ident in self._ids and self._since[ident] <= order)
 
 
 ANS = {"E": "E", "0": "0", "C": "C"}
@@ -311,18 +334,22 @@ ANS = {"E": "E", "0": "0", "C": "C"}
 
 def model_input(im):
     ops = []
+    nsp = 0
     for kind, v in im.order:
         if kind == "S":
             sp, sc = im.spawns[v], im.script[v]
             fl = sc["flags"]
+            for fd, e in sorted(sp["P"].items()):
+                im.fid(e[0], nsp)
+            nsp += 1
             spf = "-"
             m = re.search(r"s(\d+)", fl)
             if m:
                 spf = m.group(1)
             tb = ",".join("%d=%d/%d" % (fd, im.fid(e[0]), e[1]) for fd, e in sorted(sp["P"].items())) or "-"
-            ops.append("S %d %d %d %d %s %d %d %s ; %s ; %s ; %s" % (
+            ops.append("S %d %d %d %d %s %d %d %s %x ; %s ; %s ; %s" % (
                 v, v, 0 if "N" in fl else 1, 1000 + 100 * v, spf, 1 if "p" in fl else 0,
-                1 if "f" in fl else 0, "2" if "E" in fl else "-",
+                1 if "f" in fl else 0, "2" if "E" in fl else "-", sp.get("mask", (0, 0))[0],
                 ",".join(sc["stdio"]) or "-", tb, " ".join(sp["b"])))
         elif kind == "W":
             ops.append("W " + " ".join(a for _, a in v))
@@ -347,20 +374,24 @@ def canon_impl(im):
     out = []
     name = Namer(lambda x: isinstance(x, int))
 
+    nsp = [0]
+
     def tbl(t, with_cx=True):
         ents = []
         for fd, e in sorted(t.items()):
             f = e[0]
-            f = im.fid(f) if (f in im.files or f in im._ids) else f
+            # what the parent held when this uv_spawn was entered is known by its id; what the
+            # spawn created (sockets) is named by first occurrence, as on the model's side
+            f = im.fid(f) if im.known_at(f, nsp[0]) else f
             ents.append("%d=%s/%d" % (fd, name(f), e[1]))
         return ",".join(ents) or "-"
-    # ids of everything the parent held before are known
-    for h, sp in im.spawns.items():
-        for fd, e in sp["P"].items():
-            im.fid(e[0])
+    first = True
     for kind, v in im.order:
         if kind == "S":
             sp, sc = im.spawns[v], im.script[v]
+            if not first:
+                nsp[0] += 1
+            first = False
             out.append("s%d:%d:%d" % (v, sp["ret"], sp["active"]))
             if "R" in sc["flags"]:
                 c = sp.get("c")
@@ -370,6 +401,7 @@ def canon_impl(im):
                 st = sp.get("t", {})
                 out.append("t%d:%s" % (v, ";".join("%d=%s/%s" % (s, fd, ".".join(map(str, tg)))
                                                     for s, (fd, tg) in sorted(st.items()) if fd != "-")))   # "-": stream never opened
+            out.append("M%d:%x" % (v, sp.get("mask", (0, -1))[1]))
             b = [a for a in sp["b"] if a != "E"]
             if b:
                 out.append("b%d:%s" % (v, b[-1]))
@@ -437,6 +469,9 @@ def canon_model(im, line):
                         tags = stray[pf + 1]
                     ents.append("%s=%s/%s" % (slot, fd, ".".join(map(str, tags))))
                 out.append("t%d:%s" % (h, ";".join(ents)))
+            if i < len(toks) and toks[i].startswith("M%d:" % h):
+                out.append(toks[i])
+                i += 1
             if i < len(toks) and toks[i].startswith("b%d:" % h):
                 out.append(toks[i])
                 i += 1
@@ -476,6 +511,20 @@ def monitor_impl(im):
             for h, a in v:
                 if a.startswith("P"):
                     reaped_by_uv.add(h)
+    for h, sp in sorted(im.spawns.items()):
+        mb, ma = sp.get("mask", (0, 0))
+        if mb != ma:
+            names = {17: "SIGCHLD", 10: "SIGUSR1", 15: "SIGTERM"}
+            diff = [names.get(sg, str(sg)) for sg in [17, 10, 15] + [x for x in range(1, 65) if x not in (17, 10, 15)]
+                    if ((mb ^ ma) >> (sg - 1)) & 1]
+            return ("signal mask changed by uv_spawn of child %d (returned %d): %s %s on return" %
+                    (h, sp.get("ret", 0), ",".join(diff[:6]) + ("..." if len(diff) > 6 else ""),
+                     "blocked" if ma & ~mb else "unblocked")), False
+    for h in im.stuck:
+        after = [k for k in im.spawns if k < h and im.spawns[k]["ret"] != 0]
+        return ("child %d%s never reported within the drain: it has exited, SIGCHLD is blocked in the "
+                "loop thread, the handle is still active" %
+                (h, " spawned after a failed spawn" if after else "")), False
     for h, sp in sorted(im.spawns.items()):
         sc = im.script[h]
         fl, stdio = sc["flags"], sc["stdio"]
@@ -554,6 +603,9 @@ def monitor_impl(im):
                 expect_cb = False
             n = nx.get(h, 0)
             if n != (1 if expect_cb else 0):
+                if n == 0 and any(im.spawns[k]["ret"] != 0 for k in im.spawns if k < h):
+                    return ("child %d spawned after a failed spawn never reported (no exit_cb%s)"
+                            % (h, ", still waiting when the loop was drained" if h in im.stuck else "")), False
                 return "exit_cb ran %d times for child %d" % (n, h), False
             for hh, es, ts, chk, act in im.exits:
                 if hh != h:
